@@ -270,10 +270,20 @@ func c04Case(c *core.C) {
 		if !ok {
 			return
 		}
-		if m2, ok2 := jsonx.ApplyFault(mut, p2, f2, 0); ok2 {
+		k2 := 0
+		if f1 == "oversized" && f2 == "oversized" {
+			k2 = 32 // two thousandfold blow-ups multiply to a document of hundreds of megabytes
+		}
+		if m2, ok2 := jsonx.ApplyFault(mut, p2, f2, k2); ok2 {
 			mut = m2
 		}
 		label := fmt.Sprintf("double fault %s at %s + %s at %s of %s", f1, p1, f2, p2, rep.name)
+		if jsonx.Count(mut, 400000) > 400000 {
+			// the budgets are per input, not per byte: an input of this size says nothing about totality and costs
+			// the harness itself (building and encoding it) more than the budget
+			c.Cover("double-fault-input-too-large(not run)")
+			return
+		}
 		in := enc(mut)
 		c.Cover("double-faults")
 		c.DistinctBytes(in)
